@@ -1,13 +1,20 @@
-(* Str.v -- model of str_utils.ICaseString on 7-bit text, and str.lower/str.upper. *)
+(* Str.v -- model of str_utils.ICaseString and str.lower/str.upper on Latin-1 text: a Coq `ascii` is the
+   code point 0..255 of one character.  str.lower is closed on Latin-1 (A-Z and U+00C0..U+00DE except the
+   multiplication sign U+00D7 move up by 32).  str.upper is modelled for every character except the three
+   whose Python upper-case form leaves Latin-1 or changes length (U+00B5 micro sign, U+00DF sharp s, U+00FF
+   y-diaeresis): text that is upper-cased by the code (instruction mnemonics) is kept clear of them by the
+   harness, see DESIGN.md. *)
 From Coq Require Import Ascii.
 From PS Require Import Base.
 
 Definition lower_ascii (c : ascii) : ascii :=
   let n := nat_of_ascii c in
-  if (65 <=? n) && (n <=? 90) then ascii_of_nat (n + 32) else c.
+  if ((65 <=? n) && (n <=? 90)) || ((192 <=? n) && (n <=? 222) && negb (n =? 215))
+  then ascii_of_nat (n + 32) else c.
 Definition upper_ascii (c : ascii) : ascii :=
   let n := nat_of_ascii c in
-  if (97 <=? n) && (n <=? 122) then ascii_of_nat (n - 32) else c.
+  if ((97 <=? n) && (n <=? 122)) || ((224 <=? n) && (n <=? 254) && negb (n =? 247))
+  then ascii_of_nat (n - 32) else c.
 Fixpoint smap (f : ascii -> ascii) (s : string) : string :=
   match s with EmptyString => EmptyString | String c t => String (f c) (smap f t) end.
 Definition lower (s : string) : string := smap lower_ascii s.
